@@ -157,11 +157,14 @@ def run(case):
         dec = lambda x: np.asarray(x)
         want = "scalar"
     elif kind in ("list", "array"):
-        q = list(idx) if kind == "list" else mine(np.array(idx, dtype=case.get("idtype", "int64")))
+        idt_ = case.get("idtype", "int64")
+        if len(idx) and not (np.iinfo(idt_).min <= min(idx) and max(idx) <= np.iinfo(idt_).max):
+            idt_ = "int64"          # (a forced large array: the drawn index type cannot hold its positions)
+        q = list(idx) if kind == "list" else mine(np.array(idx, dtype=idt_))
         exp = v[np.array(idx, dtype=np.int64)]
         if kind == "array" and case.get("ishape"):
             # an index array with more than one dimension: the result has the shape of the index, as for the dense array
-            q = mine(np.array(idx, dtype=case.get("idtype", "int64")).reshape(case["ishape"]))
+            q = mine(np.array(idx, dtype=idt_).reshape(case["ishape"]))
             exp = v[np.array(idx, dtype=np.int64).reshape(case["ishape"])]
             tags.append("index:%dd" % len(case["ishape"]))
         a = attempt(lambda: r[q])
